@@ -442,11 +442,12 @@ func checkC17(run *mon.Run, rng *mon.Rand, thorough bool) {
 			ar.snapshot()
 			hdrSnap := make([][]byte, len(proof))
 			copy(hdrSnap, proof)
-			roots[lay] = ophosttypes.GenerateRootHashFromProofs(leaf, proof)
+			var leafAfter [32]byte
+			roots[lay], leafAfter = rootFromProofs(leaf, proof)
 			run.Evaluations++
 			tr := map[string]interface{}{"leaf": hex.EncodeToString(leaf[:]), "proof_len": plen, "layout": layoutNames[lay]}
 			run.Check("diff.root", roots[lay] == want, "c17.root.layout_dependent."+layoutNames[lay], tr, "root from proofs differs from reference under layout %s: got %x want %x", layoutNames[lay], roots[lay], want)
-			unchanged := !ar.changed()
+			unchanged := !ar.changed() && leafAfter == leaf
 			for j := range proof {
 				if !bytes.Equal(proof[j], items[j]) || len(proof[j]) != len(items[j]) {
 					unchanged = false
@@ -535,7 +536,7 @@ func c17Concurrent(run *mon.Run, rng *mon.Rand, thorough bool) {
 				}
 				leaf := ref.Leaf(b, sq, from, to, denom, amt)
 				proof := [][]byte{rand32(r), rand32(r), rand32(r)}
-				if got, want := ophosttypes.GenerateRootHashFromProofs(leaf, proof), ref.Root(leaf, proof); got != want {
+				if got, want := first32(rootFromProofs(leaf, proof)), ref.Root(leaf, proof); got != want {
 					report(i, "GenerateRootHashFromProofs")
 				}
 				if got, want := ophosttypes.GenerateOutputRoot(byte(b), x, y), ref.OutputRoot(byte(b), x, y); got != want {
